@@ -81,12 +81,13 @@ CHECKS = {
     "C06": dict(
         category="proof", design_ref="DESIGN.md §4 C06",
         text=("Proved: the parameter block codec (flag bits, two 16-bit fields, mode/type byte with the 0x0f masks, the per-mode bound fields, "
-              "solution id, interval count, min/max) decodes every field to what the writer stored, for all ten element types and ten bound modes "
+              "solution id, interval count, min/max) decodes every field to what the writer stored, for all ten element types and ten bound modes, and the header walk "
+              "of SZ_getMetadata (flag byte, block in its 28/36-byte field, exact-byte-size byte, element count in 4/8 bytes) returns every reported field as written "
               "(finite sweeps for the packed bytes lifted to all values, byte-list lemmas for the rest). On every run SZ_getMetadata is compared "
               "field by field with the model's header walk on regular, constant and lossless streams of every type, the block is re-encoded by the "
               "model and must equal the implementation's bytes, and the reported fields are judged against the call's arguments and the "
               "reconstruction error; four listed finding classes are subtracted by predicate."),
-        note=TB_COMMON + "The offsets theorem for the header walk is not proved (model compared only); PSNR/NORM derived bounds rely on libm.",
+        note=TB_COMMON + "The header walk is proved (C06_header_walk) for the fields SZ_getMetadata reports; min/max of integer streams lie outside the 28-byte field and are not part of the statement; PSNR/NORM derived bounds rely on libm.",
         technique="Coq proof of the parameter-block codec + differential check of SZ_getMetadata + oracle against call arguments"),
     "C05": dict(
         category="proof", design_ref="DESIGN.md §4 C05",
